@@ -184,6 +184,38 @@ func (c *Coll) Wait(domain uint32, n int, timeout time.Duration) ([]Delivery, bo
 	return append([]Delivery(nil), c.byDomain[domain]...), len(c.byDomain[domain]) >= n
 }
 
+// Pop waits for the oldest not yet consumed delivery of the domain, removes it from the record and
+// returns it (long sessions: memory stays bounded).
+func (c *Coll) Pop(domain uint32, timeout time.Duration) (*Delivery, bool) {
+	deadline := time.Now().Add(timeout)
+	t := time.AfterFunc(timeout, func() {
+		c.mu.Lock()
+		c.cond.Broadcast()
+		c.mu.Unlock()
+	})
+	defer t.Stop()
+	c.mu.Lock()
+	defer c.mu.Unlock()
+	for len(c.byDomain[domain]) == 0 && time.Now().Before(deadline) {
+		c.cond.Wait()
+	}
+	q := c.byDomain[domain]
+	if len(q) == 0 {
+		return nil, false
+	}
+	d := q[0]
+	q[0] = Delivery{}
+	c.byDomain[domain] = q[1:]
+	return &d, true
+}
+
+// Pending returns how many deliveries of the domain have not been consumed by Pop.
+func (c *Coll) Pending(domain uint32) int {
+	c.mu.Lock()
+	defer c.mu.Unlock()
+	return len(c.byDomain[domain])
+}
+
 func (c *Coll) Get(domain uint32) []Delivery {
 	c.mu.Lock()
 	defer c.mu.Unlock()
